@@ -108,6 +108,47 @@ def _word_case(draw, kind, allow_capturable, allow_context_names=True):
     return {"src": src, "mapping": mapping, "tricky": tricky_used, "annotate": draw(st.booleans()), "words": kind}
 
 
+SUFFIXES = ["_1", "_2", "_3", "1", "2", "_", "_0", "__1", "_1_1", "0", "_a", "x"]
+SHADOW_LIT = {"Int": ("%d", "print(%s + 1)"), "Float": ("%d.5", "print(%s * 2.0)"), "Str": ('"s%d"', 'print(%s + "t")'),
+              "Bool": ("%d > 1", "print(not %s)")}
+
+
+@st.composite
+def _shadow_case(draw):
+    """Names that are defined again and again with other types (at top level or in a function, also as a destructured pair),
+    every definition followed by a use that needs its type; the renaming gives one name the spelling of ANOTHER name plus a
+    suffix a name-mangling scheme might use (`count` next to `count_1`, `count1`, `count_`), or swaps two names whose
+    alphabetical order decides nothing."""
+    k = draw(st.integers(2, 4))
+    names = ["v%d" % (i + 1) for i in range(k)]
+    lines, n = [], 0
+    for _ in range(draw(st.integers(3, 8))):
+        nm = names[draw(st.integers(0, k - 1))]
+        ty = draw(st.sampled_from(sorted(SHADOW_LIT)))
+        n += 1
+        form = draw(st.sampled_from(["def", "def", "annotated", "pair"]))
+        if form == "pair":
+            other = names[draw(st.integers(0, k - 1))]
+            ty2 = draw(st.sampled_from(sorted(SHADOW_LIT)))
+            if other == nm:
+                continue
+            lines.append("def (%s, %s) := (%s, %s)" % (nm, other, SHADOW_LIT[ty][0] % n, SHADOW_LIT[ty2][0] % (n + 1)))
+            lines.append(SHADOW_LIT[ty2][1] % other)
+        elif form == "annotated":
+            lines.append("def %s: %s := %s" % (nm, ty, SHADOW_LIT[ty][0] % n))
+        else:
+            lines.append("def %s := %s" % (nm, SHADOW_LIT[ty][0] % n))
+        lines.append(SHADOW_LIT[ty][1] % nm)
+    if draw(st.booleans()):
+        lines = ["def fn1(p1: Int) =>"] + ["    " + l for l in lines] + ["fn1(1)"]
+    src = "\n".join(lines) + "\n"
+    base = draw(st.permutations([t for t in ORDINARY if t[0].islower()]))
+    mapping = {nm: base[i] for i, nm in enumerate(names)}
+    a, b = draw(st.permutations(names))[:2]
+    mapping[a] = mapping[b] + draw(st.sampled_from(SUFFIXES))
+    return {"src": src, "mapping": mapping, "tricky": 1, "annotate": draw(st.booleans()), "gen": "shadow"}
+
+
 def rename_text(text, mapping, words=None):
     if not mapping:
         return text
@@ -216,7 +257,8 @@ class C15:
         self.allow_capturable = "c15.no_capturable_names" not in switches
         ctx_names = "c15.no_context_class_names" not in switches
         return st.one_of(_case(self.allow_capturable, ctx_names), _case(self.allow_capturable, ctx_names),
-                         _word_case("api", self.allow_capturable, ctx_names), _word_case("wide", self.allow_capturable, ctx_names))
+                         _word_case("api", self.allow_capturable, ctx_names), _word_case("wide", self.allow_capturable, ctx_names),
+                         _shadow_case())
 
     def summarize(self, case):
         return {"mapping": case["mapping"], "annotate": case["annotate"], "src": case["src"][:700]}
@@ -228,7 +270,7 @@ class C15:
     def check(self, worker, case, stats):
         src, mapping, ann = case["src"], case["mapping"], case["annotate"]
         words = case.get("words")
-        stats.inc("gen:" + (words or "core"))
+        stats.inc("gen:" + (words or case.get("gen") or "core"))
         rsrc = rename_text(src, mapping, words)
         r0 = worker.transpile1(src, ann)
         r1 = worker.transpile1(rsrc, ann)
